@@ -42,7 +42,8 @@ def build(stage, n, buf, sd, extra):
     base = lazy_dataset.new([None if i == NONE_AT[0] else i for i in range(n)])
     rng = np.random.RandomState(sd)
     if stage == 'shuffle_once':
-        return base.shuffle(False, rng=rng), n
+        # the rng is a legacy RandomState or a numpy Generator
+        return base.shuffle(False, rng=np.random.default_rng(sd) if sd % 3 == 2 else rng), n
     if stage == 'reshuffle':
         return base.shuffle(True, rng=rng), n
     if stage == 'reshuffle_copy':
